@@ -152,6 +152,19 @@ package check
 //@   unchecked typeinv:CreateTypeList.0(repeatTypeList)#3 as above
 //@ end
 
+// the project-wide type table is rebuilt from the per-file tables: after a file's entry for a name has been merged, the
+// table holds for that name everything it held before followed by the file's declarations -- so a class declared in
+// several files keeps the declarations of all of them (its fields are the union over the files)
+//@ func (*AllProject).rebuidCreateTypeMap
+//@   props C15
+//@   loop range:fileStruct.AnnotateFile.CreateTypeMap step [file-declarations-are-merged-into-the-project-table]
+//@        has(a.createTypeMap, strName) && (prev(has(a.createTypeMap, strName)) ==> len(a.createTypeMap[strName].List) == prev(len(a.createTypeMap[strName].List)) + len(createTypeList.List))
+//@        && (!prev(has(a.createTypeMap, strName)) ==> len(a.createTypeMap[strName].List) == len(createTypeList.List))
+//@   loop range:fileStruct.AnnotateFile.CreateTypeMap exits-early-only-if [every-type-name-of-the-file-is-merged] false
+//@   loop range:a.fileStructMap exits-early-only-if [every-file-is-merged] false
+//@   unchecked typeinv:AllProject.0(a)#0 the merged lists are concatenations of the per-file lists, whose entries are non-nil by the type invariant of AnnotateFile; that invariant is not available for an AnnotateFile reached through the file table (only for parameters), so "no nil entry" is not re-proved here
+//@ end
+
 // the type-level walk that calls back into getClassTypeInfoList; under contract so that the representation
 // invariant of the visited list (no nil entry) is carried through the mutual recursion
 //@ func (*AllProject).getInLineAllNormalAnnotateClass
@@ -168,6 +181,18 @@ package check
 //@        ==> hits("collect#0") == prev(hits("collect#0")) + 1 && hits("getVarmapsSymbols#0") == prev(hits("getVarmapsSymbols#0")) + 1
 //@   at call getVarmapsSymbols#0 before assert[members-searched-under-the-locals-name] arg1 == vars.SubMaps && streq(arg3, strName) && arg5 == onlyFunc
 //@   loop range:locVarMap exits-early-only-if [every-local-of-the-scope-is-visited] false
+//@ end
+// the walk over one file: the main scope's locals, then level by level every nested scope -- a scope is passed over
+// only when it is a global function's scope recorded for exclusion; every other scope has its locals searched and ALL
+// its sub-scopes queued for the next level, whether or not it declares locals itself
+//@ func (*resultSorter).getQuerySymbols
+//@   props C19
+//@   at call getLocVarMapsSymbols#0 before assert[main-scope-locals-are-searched] arg1 == fileResult.MainFunc.MainScope.LocVarMap && !arg4
+//@   ensures[main-scope-locals-are-searched] hits("getLocVarMapsSymbols#0") == 1
+//@   at call getLocVarMapsSymbols#1 before assert[nested-scope-locals-are-searched-for-functions] arg1 == scope.LocVarMap && arg4
+//@   loop range:scopes exits-early-only-if [every-scope-of-the-level-is-visited] false
+//@   loop range:scopes step [unexcluded-scope-is-searched-and-its-sub-scopes-queued] hits("getLocVarMapsSymbols#1") == prev(hits("getLocVarMapsSymbols#1")) + 1 && len(tempScopes) == prev(len(tempScopes)) + len(scope.SubScopes)
+//@        || prev(has(curFileExcludeScopes, scope) && curFileExcludeScopes[scope]) && len(tempScopes) == prev(len(tempScopes))
 //@ end
 // member filter: in nested scopes only function members are offered; nothing else is dropped
 //@ func (*resultSorter).getVarmapsSymbols
